@@ -28,8 +28,8 @@ THEOREMS = ['link_refinement', 'link_refinement_framing_laws', 'link_refinement_
             'agreeing_proxy_accepted', 'issued_from_call_steps', 'result_from_step',
             'timedOut_from_expire_step', 'C11_call_selected_interface_agrees', 'C11_call_through_agreeing_proxy',
             'C11_call_through_introspected_proxy', 'bytes_run_simulated', 'C11_bytes_any_delivery_order_partial',
-            'bytes_nothing_stuck_in_a_receiver', 'bytes_quiescence_reachable', 'bytes_quiescence_reachable_in_class',
-            'C11_bytes_completion_always_reachable_partial', 'bytes_run_from_handshake_reduces',
+            'bytes_nothing_stuck_in_a_receiver', 'bytes_quiescence_reachable_in_domain', 'bytes_quiescence_reachable_in_class_in_domain',
+            'C11_bytes_completion_always_reachable_partial', 'bytes_run_from_handshake_reduces_partial',
             'C11_bytes_from_handshake_partial', 'C11_wire_codec_laws_c03', 'C11_bytes_any_delivery_order_c03_partial',
             'exM0_ok', 'getRemoteObject_introspects_iff_unknown_name',
             'getRemoteObject_built_lists_every_requested', 'getRemoteObject_built_agrees',
@@ -39,9 +39,15 @@ TRUSTED_BASE = [
     'and the link hypothesis `ho` (Proofs/Net/Introspected.lean) - generate / getInterfaces are tied by C15\'s streams',
     'c03Codec / c03Frame / byteRep (Net/CodecC03.lean) are run by no C11 stream: their parts (construct, parseMessage, '
     'forward) are C03\'s model, tied by C03\'s streams',
-    'bytes-net: the codec of the byte-level model is a TABLE of the bytes the real peers wrote (message text as the model '
-    'prints it -> raw bytes observed on the pipe), not a Lean model of `_marshal` / `parseMessage` (C03\'s); handshake and '
-    'Hello happen before `breset` (BNet.init starts after them); no big-endian peers and no relay in that stream',
+    'bytes-net ties `bstep` (C04 framing on the real bytes with the real cuts: messages per read, bytes left), the order and '
+    'effects of the handlers per read, forward/drop of the bus, final logs and Quiescent, and the CONTENT of every message '
+    'each real peer writes (as the real parser reads it, at the granularity of the model\'s message text) - NOT a codec: the '
+    'table codec maps message text to the bytes the real peer wrote, so Laws.roundtrip holds by construction, any '
+    'self-consistent change of _marshal + parseMessage, byte order, flags (noreply, autostart), unix_fds are invisible '
+    '(C03\'s), and the table is rebuilt every step (no single C of the theorems describes a driver run); `drain`/`pick` are '
+    'compared with a Python re-implementation of `pick` performed on the real network (the real code contributes that '
+    'the network ends quiet with equal logs under that schedule); authentication and Hello happen before `breset` AND '
+    'before `hreset` (the hs half is model against model + the recorded BEGIN line); no big-endian peers, no relay',
     'harness/net.py: in-memory byte pipes + per-peer DBusMessage._nextSerial swapping (one counter per process)',
     'message-level schedule induced from rawDBusMessageReceived/sendMessage instrumentation of each peer',
     'wire codec, framing, authentication, validators, introspection XML: not re-modelled (C01-C04, C06, C07, C15, '
@@ -994,11 +1000,18 @@ class Run:
         self.expect.append('ok')
         del net.sent_raw[:]
         if self.bytes_mode and self.hs_mode:
-            # the authentication lines the real peers wrote (the bus's receivers have had their NUL byte): in front of
-            # the model's wires; the model's first read on each link takes them together with the real read's bytes
+            # MODEL AGAINST MODEL (plus one recorded byte string): the REAL network has finished authentication and Hello
+            # inside `connect_all` above; only the model starts before the hand-off, with the real `BEGIN\r\n` in front
+            # of its up wires, and its first read on each up link is enlarged by these 7 bytes.  What is re-tested on
+            # samples is `bytes_run_from_handshake_reduces_partial`; the real hand-off read (`BEGIN\r\n` + Hello) is NOT
+            # compared by this stream (Hello is not in the model); the driver's authenticator is a stand-in (success at
+            # a line starting with BEGIN / OK), not C06/C07's
             for c in range(n):
+                # the state of a real connection between the client's BEGIN and the bus's reading it: the bus still
+                # expects the LAST line the client wrote (`BEGIN`), the client is in binary mode already
                 up = bytes(net.handshake.get('cli:%d' % c, b''))[1:]
-                down = bytes(net.handshake.get('bus:%d' % c, b''))
+                up = up[up.index(b'\r\n') + 2:] if b'\r\n' in up else up
+                down = b''
                 for d_, bs in (('up', up), ('down', down)):
                     self.lines.append('hs %s %d %s' % (d_, c, bs.hex() or '-'))
                     self.expect.append('ok')
@@ -1416,6 +1429,7 @@ class Run:
                     vals.append(nm)
                     toks.append('name ' + hs(nm))
             names = vals[0] if ia['form'] == 'one' else vals
+            call['ifarg_vals'] = vals
             kn = [known[nm] for kind, nm in ia['items'] if kind == 'name' and nm in known]
             call['cached'] = all(kind == 'inst' or nm in known for kind, nm in ia['items'])
             call['requested'] = [nm for _, nm in ia['items']]
@@ -1453,7 +1467,11 @@ class Run:
             # the decision itself, against the model's getRemoteObjectPlan (Net/GetProxy.lean)
             self.lines.append(plan_line)
             if 'proxy' in call and not sends:
-                self.expect.append(' '.join(['built'] + [hs(i.name) for i in call['proxy'].interfaces]))
+                # WHICH definition object the proxy lists: the instance that was passed (I), or another one (K: the
+                # definition the process knows under the requested name)
+                given = [v for v in call.get('ifarg_vals', []) if not isinstance(v, str)]
+                self.expect.append(' '.join(['built'] + ['%s:%s' % (hs(i.name), 'I' if any(i is g for g in given) else 'K')
+                                                         for i in call['proxy'].interfaces]))
             elif len(sends) == 1 and 'proxy' not in call:
                 self.expect.append(' '.join(['introspect'] + [hs(nm) for nm in call['requested']]))
             else:
